@@ -78,7 +78,7 @@ func init() {
 			}
 			return c.src(e)
 		}
-		n, nPairs := 0, 0
+		n, nPairs, nDropped := 0, 0, 0
 		ast.Inspect(fd.Body, func(nd ast.Node) bool {
 			sw, ok := nd.(*ast.SwitchStmt)
 			if !ok || sw.Tag == nil {
@@ -127,6 +127,23 @@ func init() {
 				if f, ok2 := appended["fpcDefaultRead"]; ok2 {
 					nPairs++
 					c.Check(d == f, "R23d", "siblings#"+itoa(nPairs), sw.Pos(), "the Description and Default arms of this switch append the same text (%s vs %s)", shown["fpcDescRead"], shown["fpcDefaultRead"])
+				}
+			}
+			// a rune that is kept as text in one free-text context must not fall through the other one:
+			// the other free-text context either appends too or has an arm of its own (the rune is its
+			// terminator / a state change). No arm at all means the rune silently disappears there.
+			hasArm := map[string]bool{}
+			for _, st := range sw.Body.List {
+				for _, e := range st.(*ast.CaseClause).List {
+					if name, ok := ctxConst(e); ok {
+						hasArm[name] = true
+					}
+				}
+			}
+			for _, pr := range [][2]string{{"fpcDescRead", "fpcDefaultRead"}, {"fpcDefaultRead", "fpcDescRead"}} {
+				if _, kept := appended[pr[0]]; kept && !hasArm[pr[1]] {
+					nDropped++
+					c.Viol("R23d", "dropped-in:"+pr[1]+"#"+itoa(nDropped), sw.Pos(), "this switch keeps the rune as text in context %s (appends %s) but has no arm for %s: there the rune falls to the default and disappears from the %s", pr[0], shown[pr[0]], pr[1], strings.TrimSuffix(strings.TrimPrefix(pr[1], "fpc"), "Read"))
 				}
 			}
 			return true
